@@ -30,20 +30,61 @@ CHECKS = {
 
 
 def replay(pid, path, seed):
+    """Re-run what a replay file recorded and validate it again (exit status as a check)."""
     import json
+    import os
     import stream as st
-    from vlib import Report, build_harness
+    from oneshot import run_oneshot
+    from vlib import Report, build_harness, FFILIB
     with open(path) as f:
         obj = json.load(f)
     rp = obj["replay"]
-    if rp.get("engine") == "stream":
-        build_harness()
-        rep = Report(pid, "quick", obj.get("seed", seed))
-        tpl, _ = st.get_templates(pid)
-        rep.rule = "replay of one recorded scenario"
-        st.run_and_validate(rep, pid, "replay", [rp["scenario"]], tpl, obj.get("seed", seed))
-        rep.case("replay", True)
-        rep.case("replay2", True)
+    seed = obj.get("seed", seed)
+    eng = rp.get("engine")
+    build_harness()
+    rep = Report(pid, "quick", seed)
+    rep.replay_mode = True
+    rep.rule = "replay of one recorded scenario (%s engine)" % eng
+    tpl, _ = st.get_templates(pid)
+    prefix = [pid + "_"] if eng != "stream" else None
+    if eng == "stream":
+        st.run_and_validate(rep, pid, "replay", [rp["scenario"]], tpl, seed)
         rep.sample(rp["scenario"])
-        return rep.finish()
-    raise SystemExit("unknown replay engine")
+    elif eng in ("noise", "kr", "prims") and rp.get("scenario"):
+        os.environ["VERIF_FFI_LIB"] = FFILIB
+        run_oneshot(rep, pid, "replay", eng, [rp["scenario"]], tpl, seed, rp.get("module") or {"noise": "Trace_Noise", "kr": "Trace_Keyring", "prims": "Trace_Prims"}[eng])
+        rep.sample(rp["scenario"])
+    elif eng == "fuzz":
+        e = rp["observed"]
+        surface, kind, n, k = e["id"].rsplit(".", 3) if e["id"].count(".") >= 3 else (e["surface"], e["kind"], "0", "0")
+        scn = {"op": "fuzz", "surface": e["surface"], "kind": e["kind"], "n": int(n), "k": int(k), "id": e["id"]}
+        evs = checks_cli.run_fuzz_file(pid, tpl, seed, 0, [scn])
+        from vlib import workdir, write_jsonl, validate_trace
+        tp = os.path.join(workdir(pid, "run-replay", clean=True), "trace.ndjson")
+        write_jsonl(tp, evs)
+        v = validate_trace(pid, "replay", "Trace_Fuzz", tp, len(evs))
+        rep.add_trace_run("replay", v, 1, len(evs))
+        for (ln, pred) in v["viols"]:
+            rep.violation("%s surface=%s kind=%s len=%s" % (pred, e["surface"], e["kind"], evs[ln - 1]["len"]), {"engine": "fuzz", "observed": evs[ln - 1]})
+        rep.sample(scn)
+    elif eng == "cli":
+        w = checks_cli.World(pid, tpl, seed)
+        checks_cli.run_configs(rep, pid, "replay", w, [rp["observed"]["cfg"]], [pid + "_", "C12_exit", "C12_error"])
+        rep.sample(rp["observed"]["cfg"])
+    elif eng == "argv":
+        import cli
+        v = rp["observed"]["argv"]
+        with cli.Sandbox(pid, "argv") as sb:
+            sb.write("x", b"not a kestrel file")
+            r = cli.kestrel(v, env={}, stdin=b"", timeout=30, cwd=sb.dir)
+        ev = {"ev": "argv", "id": "replay", "argv": v, "exit": r.rc, "errline": r.has_error_line, "timed_out": r.timed_out, "stderr": r.err_text[-200:]}
+        checks_cli.validate_events_argv(rep, pid, [ev])
+        rep.sample(ev)
+    else:
+        # history-level replays (fresh, cli-history, cliclear): the history is regenerated from the seed,
+        # so the replay is the check itself with the recorded seed
+        os.environ["VERIF_SEED"] = str(seed)
+        return CHECKS[pid](pid, obj.get("tier", "quick"), seed)
+    rep.case("replay", True)
+    rep.case("replay-2", True)
+    return rep.finish()
